@@ -108,14 +108,53 @@ def judge(case, m):
     case = {**case, "text": text}
     m.current_case = case
     ns = D.namespace(meta)
-    try:
-        dm = formulae.design_matrices(text, df, extra_namespace=ns)
-    except Exception as e:
-        m.note("design-raised:" + type(e).__name__)
-        return
+    used = set()
+    for t in case["terms"] + [g["factor"] for g in case.get("group", [])] + \
+            [g["effect"] for g in case.get("group", []) if g["effect"] != "1"]:
+        for a in t:
+            used.update(D.atom(a, meta).vars)
+    if case.get("resp"):
+        used.add(case["resp"])
+    na_action = case.get("na_action", "drop")
     rng = np.random.default_rng(case["frame"]["seed"] + 8)
-    probe = df.iloc[: min(5, len(df))].copy()
-    base = signature(dm, probe)
+    # missing values in used columns: the row filter must be positional, whatever the index
+    if case.get("nan") and used:
+        cands = sorted(c for c in used if c in df.columns and (na_action == "drop" or meta[c]["kind"] in ("num", "pos")))
+        if cands:
+            c = cands[int(rng.integers(0, len(cands)))]
+            rows = rng.choice(len(df), size=min(len(df) - 1, int(rng.integers(1, 4))), replace=False)
+            if meta[c]["kind"] in ("int", "code"):
+                df[c] = df[c].astype(float)
+            df.loc[df.index[rows], c] = np.nan
+            m.cls("nan-in:" + meta[c]["kind"])
+    complete = df[sorted(c for c in used if c in df.columns)].notna().all(axis=1).to_numpy() if used else np.ones(len(df), bool)
+    try:
+        dm = formulae.design_matrices(text, df, na_action=na_action, extra_namespace=ns)
+        base_raised = None
+    except Exception as e:
+        if not (na_action == "error" and not complete.all() and isinstance(e, ValueError)):
+            m.note("design-raised:" + type(e).__name__)
+            # removing the columns the formula does not mention must not turn a refusal into a design
+            keep = [c for c in df.columns if c in used]
+            if keep and len(keep) < len(df.columns):
+                m.ev("unused-columns")
+                try:
+                    with core.shadow():
+                        attach.ORIG["design_matrices"](text, df[keep], na_action, 0, ns)
+                    m.violation("unused-columns", f"refused ({type(e).__name__}: {e}) but accepted once the unused "
+                                f"columns are removed", case={**case, "transform": "unused columns removed"},
+                                key="unused-columns:refusal-depends-on-unused")
+                except Exception:
+                    pass
+            return
+        base_raised = e  # the documented refusal: every transformed frame must be refused as well
+    kept = np.flatnonzero(complete) if na_action == "drop" else np.arange(len(df))
+    pos = {int(r): j for j, r in enumerate(kept)}
+    probe = df.iloc[kept[: min(5, len(kept))]].copy() if len(kept) else df.iloc[:0]
+    if na_action == "pass":
+        probe = df.iloc[np.flatnonzero(complete)[:5]].copy()
+    base = signature(dm, probe) if base_raised is None else None
+    m.cls("na_action:" + na_action)
     used = set()
     for t in case["terms"] + [g["factor"] for g in case.get("group", [])] + \
             [g["effect"] for g in case.get("group", []) if g["effect"] != "1"]:
@@ -127,15 +166,23 @@ def judge(case, m):
 
     def shadow_design(frame):
         with core.shadow():
-            return orig(text, frame, "drop", 0, ns)
+            return orig(text, frame, na_action, 0, ns)
 
     def run(contract, frame, perm=None, what=""):
         m.ev(contract)
+        if perm is not None:  # positions, among the rows the base design kept, of the kept permuted rows
+            perm = np.array([pos[int(r)] for r in perm if int(r) in pos], dtype=int)
         try:
             dm2 = shadow_design(frame)
         except Exception as e:
+            if base_raised is not None:
+                return
             m.violation(contract, f"{what}: the transformed frame raises {type(e).__name__}: {e}", case={**case, "transform": what},
                         key=contract + ":raises")
+            return
+        if base_raised is not None:
+            m.violation(contract, f"{what}: accepted although the original frame is refused ({base_raised})",
+                        case={**case, "transform": what}, key=contract + ":accepts")
             return
         diff = compare(base, signature(dm2, probe), perm)
         if diff:
@@ -170,8 +217,12 @@ def run_shard(i, n, tier, seed, m):
     rng = random.Random(seed * 1000003 + i * 23 + 8)
     ncases = (2000 if tier == "quick" else 30000) // n
     for k in range(ncases):
+        # orthogonal polynomials / splines of degree >= number of points are numerically meaningless
+        # (and not equivariant for that reason alone): stateful profiles get at least 8 rows
         case = D.random_case(rng, profile="stateful" if k % 3 else "plain", hostile=(k % 4 == 0), group_p=0.5,
-                             min_rows=2, with_refs=(k % 3 != 0))
+                             min_rows=8 if k % 3 else 2, with_refs=(k % 3 != 0))
+        case["na_action"] = rng.choice(["drop", "drop", "drop", "error", "pass"])
+        case["nan"] = rng.random() < 0.35
         text = D.formula_text(case)
         nontrivial = bool(case["group"]) or any("(" in a or a in D.CAT_VARS for t in case["terms"] for a in t)
         m.case({**case, "text": text}, canon=[text, case["frame"]["seed"]], nontrivial=nontrivial)
